@@ -21,7 +21,8 @@ C1 == 4097   C2 == 4098   Sender == 8193   Coinbase == 12289
 
 BaseTx == [fork |-> "cancun", from |-> Sender, to |-> C1, isCreate |-> FALSE, value |-> 0, gas |-> 100000,
            price |-> 3, feeCap |-> 4, tip |-> 2, baseFee |-> 1, nonce |-> 0, data |-> << >>, dataw |-> << >>,
-           alAddrs |-> << >>, alKeys |-> << >>, coinbase |-> Coinbase, blockGas |-> 30000000, skipNonce |-> FALSE]
+           alAddrs |-> << >>, alKeys |-> << >>, coinbase |-> Coinbase, blockGas |-> 30000000, skipNonce |-> FALSE,
+           blobTx |-> FALSE, blobVers |-> << >>, blobFeeCap |-> 0, blobBaseFee |-> 1, setCode |-> FALSE, auths |-> << >>]
 SenderAcct == [addr |-> Sender, bal |-> 50000000, nonce |-> 0, code |-> << >>, stor |-> << >>]
 Contract(a, bal, code, stor) == [addr |-> a, bal |-> bal, nonce |-> 1, code |-> code, stor |-> stor]
 StorOf(v) == IF v = 0 THEN << >> ELSE << <<0, v>> >>
@@ -76,7 +77,29 @@ TxCases ==
       fc \in {1, 2, 4}, d \in {<< >>, [i \in 1..32 |-> 0], [i \in 1..32 |-> IF i < 17 THEN 1 ELSE 0]},
       al \in BOOLEAN, sb \in {60000, 50000000} }
 
-Cases == CASE Family = "sstore" -> SStoreCases [] Family = "seq" -> SeqCases [] Family = "call" -> CallCases [] OTHER -> TxCases
+(* --- family "auth": EIP-7702 authorisation lists: every validity condition of a tuple, one or *)
+(* two tuples for the same authority A1 (token -2; -1 = signature does not recover), every      *)
+(* kind of pre-existing authority account; the transaction calls the authority itself, so a    *)
+(* successful delegation to C2 runs C2's code in the authority's storage                        *)
+A1 == -2
+Tuples == [chainOk : BOOLEAN, nonce : {0, 1}, target : {C2, 0}, authority : {A1, UNK}]
+AuthAccts == { << >>,
+               << [addr |-> A1, bal |-> 9, nonce |-> 0, code |-> << >>, stor |-> << >>] >>,
+               << [addr |-> A1, bal |-> 0, nonce |-> 1, code |-> Designator(C1), stor |-> << >>] >>,
+               << [addr |-> A1, bal |-> 0, nonce |-> 1, code |-> <<0>>, stor |-> << >>] >> }
+AuthCases ==
+  { [tx |-> [BaseTx EXCEPT !.fork = f, !.to = A1, !.gas = g, !.setCode = TRUE, !.auths = au],
+     accts |-> << Contract(C1, 0, <<0>>, StorOf(0)), Contract(C2, 0, P(1) \o P(0) \o <<85, 0>>, StorOf(0)), SenderAcct >> \o aa]
+    : f \in Forks \ {"cancun"}, g \in {120000, 46000}, aa \in AuthAccts,
+      au \in { <<t>> : t \in Tuples } \cup { <<t1, t2>> : t1 \in Tuples, t2 \in {t \in Tuples : t.authority = A1 /\ t.chainOk} } }
+
+(* --- family "blob": the EIP-4844 envelope ---------------------------------------------------- *)
+BlobCases ==
+  { [tx |-> [BaseTx EXCEPT !.fork = f, !.blobTx = TRUE, !.blobVers = [i \in 1..n |-> v], !.blobFeeCap = bf, !.gas = g],
+     accts |-> << Contract(C1, 0, <<74, 80, 0>>, StorOf(0)), [SenderAcct EXCEPT !.bal = sb] >>]
+    : f \in Forks, n \in {0, 1, 6, 7}, v \in {1, 2}, bf \in {0, 1, 3}, g \in {21000, 30000}, sb \in {2000000, 50000000} }
+
+Cases == CASE Family = "auth" -> AuthCases [] Family = "blob" -> BlobCases [] Family = "sstore" -> SStoreCases [] Family = "seq" -> SeqCases [] Family = "call" -> CallCases [] OTHER -> TxCases
 
 MCInit == c \in Cases /\ m = TxStart(c.tx, c.accts)
 MCNext == Running(m) /\ m' = RunStep(m) /\ UNCHANGED c
@@ -97,11 +120,14 @@ TotalPre    == LET S[k \in 0..Len(c.accts)] == IF k = 0 THEN 0 ELSE S[k - 1] + c
 (* ether is conserved up to the burnt base fee (the coinbase and the self-destruct beneficiary *)
 (* 0x1009 are not pre-state accounts here)                                                    *)
 EtherConserved == m.ph = "end" =>
-   TotalBal(m.w) + Bal(m.w, Coinbase) + Bal(m.w, 4105) + m.out.gasUsed * m.tx.baseFee = TotalPre
-(* a failed transaction changes nothing but the sender's balance and nonce and the coinbase   *)
+   TotalBal(m.w) + Bal(m.w, Coinbase) + Bal(m.w, 4105) + m.out.gasUsed * m.tx.baseFee
+     + BlobGas(m.tx) * m.tx.blobBaseFee = TotalPre
+(* a failed transaction changes nothing but the sender's balance and nonce, the coinbase and  *)
+(* the authorities of its authorisation list                                                  *)
 FailedRestores == m.ph = "end" /\ ~m.out.ok =>
    \A i \in DOMAIN c.accts : LET a == c.accts[i].addr IN
-      /\ (a # Sender => Bal(m.w, a) = c.accts[i].bal /\ Acct(m.w, a).nonce = c.accts[i].nonce)
+      /\ (a # Sender /\ (\A k \in DOMAIN c.tx.auths : c.tx.auths[k].authority # a)     \* (authorisations outlive a failed call)
+            => Bal(m.w, a) = c.accts[i].bal /\ Acct(m.w, a).nonce = c.accts[i].nonce)
       /\ \A s \in 0..2 : SLoad(m.w, a, s) = (IF \E j \in DOMAIN c.accts[i].stor : c.accts[i].stor[j][1] = s
                                              THEN (LET j == CHOOSE j \in DOMAIN c.accts[i].stor : c.accts[i].stor[j][1] = s IN c.accts[i].stor[j][2])
                                              ELSE 0)
